@@ -302,3 +302,18 @@ def fresh_object_locals(func_node: ast.AST, prog: Program, module: Module) -> Di
             if ci is not None and counts.get(name) == 1:
                 out[name] = ci.name
     return out
+
+
+def no_wrap_hooks() -> Dict[str, object]:
+    """Post-processor for Angular.to_raw: keep the `angle within one turn` case of the 2*pi wrap
+    (the quantifiers of the properties exclude the other one; recorded as an assumption by the rules)."""
+    from ..abseval import Cond, Scalar
+
+    def strip(ev, v):
+        if isinstance(v, Cond) and v.test.kind == 'pos' and isinstance(v.a, Scalar) and 'mod' in v.a.rf.functions() \
+                and 'pi' in v.test.rf.symbols():
+            return strip(ev, v.b)
+        if isinstance(v, Cond):
+            return ev.mk_cond(v.test, strip(ev, v.a), strip(ev, v.b))
+        return v
+    return {'post:Angular.to_raw': strip}
